@@ -28,6 +28,12 @@ byte-field objects are shared with the caller's configuration — and assigns th
 caller's list; `FinishedParams.success_params()` / `.empty()` allocate a new object and a new list per
 call (`default_factory`); `PduHolder.pdu = x` stores `x`; decoders return all-fresh object graphs;
 `PusTc.from_sp_header` ADOPTS and MODIFIES the caller's header (documented behaviour of that factory).
+Second round (read off HEAD 066f1b2): USLP `TransferFrame(header, tfdf, …)` keeps both caller objects, `set_frame_len_in_header()`
+assigns `frame_len` of the caller's `PrimaryHeader` (nothing for a truncated header), `TransferFrame.unpack` is all-new;
+`PusTm.from_composite_fields` / `Service1Tm.from_tm` ADOPT the given objects and write nothing; `Service1Tm(…)` without
+parameters allocates its own; the setters that reach the configuration through a PDU (`pdu.file_flag`, `pdu_header.<flag>`,
+`set_entity_ids`, `transaction_seq_num`) write the PDU's own copy — the last two by REPLACING references —, while
+`pdu.source_entity_id.value = v` writes the shared byte-field object.
 The variants `…Shared` describe the code before 840b2f2 / b7949db and exist only so that the
 separation theorems are visibly not vacuous.
 
@@ -47,6 +53,7 @@ inductive Tag
   | byteField | pduConfig | pduHeader | directive
   | ackPdu | promptPdu | keepAlivePdu | nakPdu | eofPdu | finishedPdu | metadataPdu | fileDataPdu
   | finishedParams | fileDataParams | metadataParams | segMeta | pyList | tlv | pduHolder
+  | uslpHeader | uslpTruncHeader | tfdf | transferFrame | fieldEnum | failureNotice
 deriving DecidableEq, Repr
 
 structure Cell where
@@ -620,6 +627,164 @@ def unpackPdu (k : PduKind) (idw seqw : Nat) (withObj : Bool) (scal : List Nat) 
     let b ← newDirective conf k.code scal.length
     new ⟨k.tag, [some b], scal⟩
 
+/-! ### USLP transfer frames (`uslp/frame.py`, `uslp/header.py`) -/
+
+/-- an optional octet string as a scalar: `0` = `None`, `len + 1` otherwise (`len()` tests `is not None`) -/
+def optEnc : Option Nat → Nat
+  | none => 0
+  | some n => n + 1
+
+/-- `PrimaryHeader(…)` — scalars `[frame_len, vcf_count_len, op_ctrl_flag, scid, vcid, map_id, src_dest]` -/
+def newUslpHeader (frameLen vcfLen ocf scid vcid mapId srcDest : Nat) : H Addr :=
+  new ⟨.uslpHeader, [], [frameLen, vcfLen, ocf, scid, vcid, mapId, srcDest]⟩
+
+/-- `TruncatedPrimaryHeader(…)` (no frame length field) — scalars `[scid, vcid, map_id, src_dest]` -/
+def newUslpTruncHeader (scid vcid mapId srcDest : Nat) : H Addr := new ⟨.uslpTruncHeader, [], [scid, vcid, mapId, srcDest]⟩
+
+/-- `tfdf.header_len()` -/
+def tfdfHeaderLen (fhp : Option Nat) : Nat := if fhp.isSome then 3 else 1
+
+/-- `TransferFrameDataField(rules, ident, tfdz, fhp_or_lvop)`: the data zone is an octet string the object HOLDS (a scalar
+    here: its length); `ValueError` when too large; scalars `[rules, ident, fhp_or_lvop (optEnc), len(tfdz), len()]` -/
+def newTfdf (rules ident : Nat) (fhp : Option Nat) (tfdzLen : Nat) : H Addr :=
+  if tfdfHeaderLen fhp + tfdzLen > 65529 - tfdfHeaderLen fhp then fail else
+  new ⟨.tfdf, [], [rules, ident, optEnc fhp, tfdzLen, tfdfHeaderLen fhp + tfdzLen]⟩
+
+/-- `TransferFrame(header, tfdf, insert_zone, op_ctrl_field, fecf)`: five plain attribute assignments — the frame KEEPS the
+    caller's header and data-field objects; refs `[header, tfdf]`, scalars `[insert_zone, op_ctrl_field, fecf]` (`optEnc`) -/
+def newTransferFrame (hdr tfdf : Addr) (iz ocf fecf : Option Nat) : H Addr :=
+  new ⟨.transferFrame, [some hdr, some tfdf], [optEnc iz, optEnc ocf, optEnc fecf]⟩
+
+/-- `frame.set_frame_len_in_header()`: `isinstance(self.header, PrimaryHeader)` — a truncated header has no length field and
+    nothing happens —, then `self.len()` (header, data field, optional fields), `ValueError` beyond 16 bits, then
+    `self.header.frame_len = self.len() - 1`: an assignment INTO THE CALLER'S header object -/
+def setFrameLenInHeader (fr : Addr) : H Unit := do
+  let h ← ref fr 0
+  let ch ← cellAt h
+  if ch.tag ≠ .uslpHeader then pure () else do
+  let t ← ref fr 1
+  let vcf ← scalAt h 1
+  let sz ← scalAt t 4
+  let iz ← scalAt fr 0
+  let ocf ← scalAt fr 1
+  let fecf ← scalAt fr 2
+  let n := 7 + vcf + sz + (iz - 1) + (ocf - 1) + (fecf - 1)
+  if n - 1 > 65535 then fail else setScal h 0 (n - 1)
+
+/-- `TransferFrame.unpack(raw, frame_type, properties)`: a new header (of either class), a new data field, a new frame
+    (the `__empty()` header / data field it starts from are unreachable when it returns); the scalar lists are what was decoded -/
+def unpackFrame (truncated : Bool) (hs ts fs : List Nat) : H Addr := do
+  let h ← new ⟨if truncated then .uslpTruncHeader else .uslpHeader, [], hs⟩
+  let t ← new ⟨.tfdf, [], ts⟩
+  new ⟨.transferFrame, [some h, some t], fs⟩
+
+/-! ### adoption by the telemetry factories -/
+
+/-- `PusTm.from_composite_fields(sp_header, sec_header, tm_data)`: `ValueError` for a TC header, both objects adopted, nothing
+    written (the `empty()` packet's own header / secondary header become unreachable) -/
+def tmFromCompositeFields (hdr sec : Addr) (dataLen : Nat) : H Addr := do
+  let pid ← ref hdr 0
+  let pt ← scalAt pid 0
+  if pt = 1 then fail else
+  new ⟨.pusTm, [some hdr, some sec], [dataLen, 0]⟩
+
+/-- `RequestId.unpack(raw)` / `RequestId.empty()`: a new `PacketId`, a new `PacketSeqCtrl`, a new request ID -/
+def newReqId (ptype shf apid flags count ver : Nat) : H Addr := do
+  let pid ← newPacketId ptype shf apid
+  let psc ← newPsc flags count
+  new ⟨.requestId, [some pid, some psc], [ver]⟩
+
+/-- `Service1Tm(apid, subservice, timestamp)` without `verif_params`: `VerificationParams(RequestId.empty())` and a `PusTm`,
+    all new per call -/
+def newService1TmDefault (apid sub tsLen : Nat) : H Addr := do
+  let rid ← newReqId 0 0 0 0 0 0
+  let vp ← newVerifParams rid
+  let tm ← newPusTm 1 sub apid 0 tsLen 0
+  new ⟨.service1Tm, [some vp, some tm], []⟩
+
+/-- `Service1Tm.from_tm(tm, params)`: `cls.__empty()` (new parameters; its own `PusTm` becomes unreachable), then
+    `service_1_tm.pus_tm = tm` — the GIVEN telemetry object is ADOPTED, not copied —, then `_unpack_raw_tm`: source data
+    shorter than 4 octets raises, `tc_req_id = RequestId.unpack(…)` (new objects, stored in the report's OWN new parameters),
+    a new step ID for subservices 5 / 6, a new failure notice (holding a new error-code field) for the even subservices,
+    `ValueError` for any other subservice. Nothing is written to `tm`. Values decoded from the octets are not modelled (0). -/
+def service1FromTm (tm : Addr) : H Addr := do
+  let n ← scalAt tm 0
+  let sec ← ref tm 1
+  let sub ← scalAt sec 1
+  if n < 4 then fail else do
+  if ¬ (1 ≤ sub ∧ sub ≤ 8) then fail else do
+  let rid ← newReqId 0 0 0 0 0 0
+  let st ← (if sub = 5 ∨ sub = 6 then do
+      let e ← new ⟨.fieldEnum, [], [8, 0]⟩
+      pure (some e)
+    else pure none)
+  let fnot ← (if sub % 2 = 0 then do
+      let c ← new ⟨.fieldEnum, [], [8, 0]⟩
+      let f ← new ⟨.failureNotice, [some c], [0]⟩
+      pure (some f)
+    else pure none)
+  let vp ← new ⟨.verifParams, [some rid, st, fnot], []⟩
+  new ⟨.service1Tm, [some vp, some tm], []⟩
+
+/-! ### setters that go through a PDU to ITS OWN configuration copy -/
+
+/-- the header and the configuration a PDU reads: `pdu.pdu_header`, `pdu.pdu_header.pdu_conf` -/
+def pduHeaderConf (k : PduKind) (pdu : Addr) : H (Addr × Addr) :=
+  match k with
+  | .fileData => do
+    let h ← ref pdu 0
+    let c ← ref h 0
+    pure (h, c)
+  | _ => do
+    let b ← ref pdu 0
+    let h ← ref b 0
+    let c ← ref h 0
+    pure (h, c)
+
+/-- assignments that reach the configuration THROUGH a PDU:
+    * `fileFlag v` — `pdu.file_flag = v` of the classes that define the setter (Keep Alive, NAK): the flag of the PDU's
+      configuration and the data-field length of its header are assigned (the length VALUE written here is Keep Alive's
+      formula; for NAK it only records that the header is rewritten — `Model/Mutation.lean` has the values);
+    * `hdrScalar i v` — `pdu.pdu_header.<trans. mode | file_flag | crc_flag | direction | seg_ctrl> = v` and
+      `pdu.pdu_file_directive.file_flag / crc_flag = v` (scalar `i` of the configuration the header holds);
+    * `entityIds a b` — `pdu.pdu_header.set_entity_ids(a, b)`: `ValueError` for different widths, then
+      `self.pdu_conf.source_entity_id = a; self.pdu_conf.dest_entity_id = b` — the header's configuration gets the GIVEN
+      objects (a replacement of the references, NOT an assignment to `.value` of the byte fields it held);
+    * `seqNum q` — `pdu.pdu_header.transaction_seq_num = q`: likewise a replacement;
+    * `fieldValue i v` — `pdu.source_entity_id.value = v` (`i` = 0, 1, 2: source, destination, sequence number): an
+      assignment INTO the byte-field object, which the shallow copy shares with the caller's configuration -/
+inductive PduFlagOp
+  | fileFlag (v : Nat)
+  | hdrScalar (i v : Nat)
+  | entityIds (a b : Addr)
+  | seqNum (q : Addr)
+  | fieldValue (i v : Nat)
+deriving DecidableEq, Repr
+
+def pduFlagSet (k : PduKind) (pdu : Addr) : PduFlagOp → H Unit
+  | .fileFlag v => do
+    let (h, c) ← pduHeaderConf k pdu
+    let crc ← scalAt c 2
+    setScal c 1 v
+    setScal h 2 ((if v = 1 then 8 else 4) + 2 * crc + 1)
+  | .hdrScalar i v => do
+    let (_, c) ← pduHeaderConf k pdu
+    setScal c i v
+  | .entityIds a b => do
+    let (_, c) ← pduHeaderConf k pdu
+    let wa ← scalAt a 0
+    let wb ← scalAt b 0
+    if wa ≠ wb then fail else do
+    setRef c 0 (some a)
+    setRef c 1 (some b)
+  | .seqNum q => do
+    let (_, c) ← pduHeaderConf k pdu
+    setRef c 2 (some q)
+  | .fieldValue i v => do
+    let (_, c) ← pduHeaderConf k pdu
+    let f ← ref c i
+    setScal f 1 v
+
 /-! ## named access paths (public attribute names of the library) -/
 
 /-- public attribute / property name → the chain of `refs` indices it reads -/
@@ -670,6 +835,13 @@ def attr : Tag → String → Option (List Nat)
   | .metadataPdu, "params" => some [1]
   | .metadataPdu, "options" => some [2]
   | .verifParams, "req_id" => some [0]
+  | .verifParams, "step_id" => some [1]
+  | .verifParams, "failure_notice" => some [2]
+  | .service1Tm, "step_id" => some [0, 1]
+  | .service1Tm, "failure_notice" => some [0, 2]
+  | .failureNotice, "code" => some [0]
+  | .transferFrame, "header" => some [0]
+  | .transferFrame, "tfdf" => some [1]
   | .pyList, name => name.toNat?.map fun i => [i]      -- `lst[i]`, written as the path segment `i`
   | t, name =>
     -- the seven file-directive PDU classes: `pdu_file_directive`, and what they forward to it
